@@ -8,11 +8,15 @@ Local Open Scope Z_scope.
 Ltac Zify.zify_post_hook ::= Z.to_euclidean_division_equations.
 
 (** ---- Part 1: arithmetic ---- *)
+Lemma next_time_zero : forall st0 w, next_time st0 0 w = w.
+Proof. reflexivity. Qed.
+
 Lemma next_time_spec : forall st0 i w, 0 < i ->
   let t := next_time st0 i w in
   t = st0 + ((w - st0) / i + 1) * i /\ w < t /\ t <= w + i /\ (t - st0) mod i = 0.
 Proof.
   intros st0 i w Hi t. unfold t, next_time.
+  destruct (i =? 0) eqn:Ez; [apply Z.eqb_eq in Ez; lia|].
   assert (E : w + (i - (w - st0) mod i) = st0 + ((w - st0) / i + 1) * i) by nia.
   rewrite E. split; [reflexivity|]. split; [nia|]. split; [nia|].
   replace (st0 + ((w - st0) / i + 1) * i - st0) with (((w - st0) / i + 1) * i) by lia.
@@ -27,7 +31,7 @@ Definition good_ev (e : ev) : Prop :=
   match e with
   | ECall _ _ ov => ov = false
   | ESkip => True
-  | ESched w st0 i t => 0 < i /\ t = st0 + ((w - st0) / i + 1) * i /\ w < t /\ t <= w + i
+  | ESched w st0 i t => (0 < i /\ t = st0 + ((w - st0) / i + 1) * i /\ w < t /\ t <= w + i) \/ (i = 0 /\ t = w)
   | EDoubleFire => False
   | _ => True
   end.
@@ -41,7 +45,7 @@ Record dinv (s : st) : Prop := mkD {
 }.
 
 Record Core (s : st) : Prop := mkCore {
-  c_int : 0 < interval s;
+  c_int : 0 <= interval s;
   c_d : dinv s;
   c_log : Forall good_ev (log s)
 }.
@@ -83,10 +87,19 @@ Proof.
   split; rewrite ?E2, ?E3, ?E4, ?E5; auto.
 Qed.
 
+Lemma Core_set_epoch : forall st0 s, Core s -> Core (set_epoch st0 s).
+Proof.
+  intros st0 s [H1 [D1 D2 D3 D4 D5] H3]. split; cbn; auto; [|constructor; [exact I | exact H3]].
+  split; cbn; auto.
+Qed.
+
 Lemma Core_schedule : forall w s, Core s -> Core (schedule w s).
 Proof.
   intros w s H. unfold schedule. apply Core_emit.
-  - cbn. destruct (next_time_spec (start s) (interval s) w (c_int _ H)) as [A [B [C _]]]. pose proof (c_int _ H). auto.
+  - cbn. pose proof (c_int _ H) as Hi. destruct (Z.eq_dec (interval s) 0) as [E0|E0].
+    + right. rewrite E0. split; reflexivity.
+    + left. assert (Hp : 0 < interval s) by lia.
+      destruct (next_time_spec (start s) (interval s) w Hp) as [A [B [C _]]]. auto.
   - reflexivity.
   - eapply Core_same; [| | | | |exact H]; reflexivity.
 Qed.
@@ -169,6 +182,10 @@ Section WithBeh.
     set (s1 := set_clock (pend s) (nextid s) None s).
     assert (HC : Core s1) by (eapply Core_same; [| | | | |exact H]; reflexivity).
     assert (Hm : mid s1) by (unfold mid, s1; cbn; repeat split; eauto).
+    destruct (with_count && (interval s1 =? 0))%bool.
+    { apply run_f_mid.
+      + apply Core_emit; [exact I | reflexivity|]. eapply Core_same; [| | | | |exact HC]; reflexivity.
+      + unfold mid in *. cbn in *. exact Hm. }
     destruct with_count; [|apply run_f_mid; assumption].
     match goal with |- context [if ?c then _ else _] => destruct c end.
     - apply run_f_mid.
@@ -188,18 +205,20 @@ Section WithBeh.
     intros s o [HC Hp] Hok. destruct o as [i b|a|ok| |]; cbn [step].
     - (* start *)
       cbn in Hok.
-      destruct (running s || (i <=? 0)) eqn:E.
+      destruct (running s || (i <? 0)) eqn:E.
       { split; [apply Core_emit; auto; exact I|]. destruct Hp as [Hp|[Hp|Hp]].
         - left. unfold idle in *. cbn. exact Hp.
         - right. left. unfold scheduled in *. cbn. exact Hp.
         - right. right. unfold awaiting in *. cbn. exact Hp. }
-      apply orb_false_iff in E. destruct E as [Er Ei]. apply Z.leb_gt in Ei.
+      apply orb_false_iff in E. destruct E as [Er Ei]. apply Z.ltb_ge in Ei.
       destruct Hp as [Hp|[Hp|Hp]].
       + destruct Hp as [P1 [P2 [P3 [P4 P5]]]].
         set (s1 := mkSt (now s) true (now s) i b true (pend s) (nextid s) (call s) (waiting s) (S (dgen s))
-                        (Some (dgen s)) (dfired s) (realLast s) (ncalls s) (wasreset s || started s) (log s)).
+                        (Some (dgen s)) (dfired s) (realLast s) (ncalls s) (wasreset s || started s)
+                        (EEpoch (lastidx_at (now s) i b (realLast s)) :: log s)).
         assert (HC1 : Core s1).
-        { destruct HC as [H1 [D1 D2 D3 D4 D5] H3]. split; cbn; auto. split; cbn; auto.
+        { destruct HC as [H1 [D1 D2 D3 D4 D5] H3]. split; cbn; auto; [|constructor; [exact I | exact H3]].
+          split; cbn; auto.
           - intros g Hin. specialize (D2 g Hin). lia.
           - intros g Hg. inversion Hg; subst. split; [lia|]. intros Hin. specialize (D2 _ Hin). lia.
           - intros g Hlt. destruct (Nat.eq_dec g (dgen s)) as [->|Hne]; [right; reflexivity|].
@@ -258,7 +277,7 @@ Section WithBeh.
         split; [apply Core_emit; auto; exact I|]. left. unfold idle. cbn. auto.
       + destruct Hp as [id [t [g [P1 [P2 [P3 [P4 P5]]]]]]]. rewrite P1, P3.
         split.
-        * apply Core_schedule. eapply Core_same; [| | | | |exact HC]; reflexivity.
+        * apply Core_schedule. apply Core_set_epoch. eapply Core_same; [| | | | |exact HC]; reflexivity.
         * right. left. unfold scheduled, schedule. cbn. rewrite P2. cbn. rewrite Nat.eqb_refl. cbn.
           eexists _, _, g. repeat split; eauto.
       + destruct Hp as [w [g [P2 [P3 [P4 P5]]]]]. destruct (running s) eqn:Er.
@@ -298,7 +317,7 @@ Section WithBeh.
 
   Lemma reach_sched : forall ops, run_ok init ops ->
     forall w st0 i t, In (ESched w st0 i t) (log (run beh with_count init ops)) ->
-    0 < i /\ t = st0 + ((w - st0) / i + 1) * i /\ w < t /\ t <= w + i.
+    (0 < i /\ t = st0 + ((w - st0) / i + 1) * i /\ w < t /\ t <= w + i) \/ (i = 0 /\ t = w).
   Proof.
     intros ops Hok w st0 i t Hin. destruct (reach_Inv ops Hok) as [[_ _ Hl] _].
     rewrite Forall_forall in Hl. exact (Hl _ Hin).
@@ -356,50 +375,65 @@ Proof. vm_compute. split; [do 10 right; left; reflexivity|]. split; [tauto|]. re
 Ltac sst := cbn [now started start interval runAtStart running pend nextid call waiting dgen dcur dfired realLast
                   ncalls wasreset log emit set_running set_clock set_waiting set_now set_epoch set_last].
 
-(** ---- Part 3: withCount: the counts passed sum to the number of boundaries elapsed ---- *)
+(** ---- Part 3: withCount ---- *)
 Definition count_of (e : ev) : list Z := match e with ECount n => [n] | _ => [] end.
 Definition csum (l : list ev) : Z := fold_right Z.add 0 (flat_map count_of l).
 Definition count_ok (e : ev) : Prop := match e with ECount n => 1 <= n | ESkip => False | _ => True end.
 
-(** index of the boundary interval of the last counted call; before the first call: -1 if the loop
-    was started with now=True (the immediate call counts the boundary at [start] itself), else 0 *)
-Definition lastidx (s : st) : Z :=
-  match realLast s with
-  | Some l => (l - start s) / interval s
-  | None => if runAtStart s then -1 else 0
+(** counts passed since the current epoch began (the last start()/reset()), and the base recorded there *)
+Fixpoint esum (l : list ev) : Z :=
+  match l with
+  | [] => 0
+  | EEpoch _ :: _ => 0
+  | ECount n :: r => n + esum r
+  | _ :: r => esum r
+  end.
+Fixpoint ebase (l : list ev) : Z :=
+  match l with
+  | [] => 0
+  | EEpoch b :: _ => b
+  | _ :: r => ebase r
   end.
 
-(** the count law, claimed as long as neither reset() nor a second start() changed the epoch *)
-Definition CIbody (s : st) : Prop :=
-  Forall count_ok (log s)
-  /\ (started s = false -> csum (log s) = 0 /\ realLast s = None)
-  /\ (started s = true ->
-      start s <= now s
-      /\ csum (log s) = lastidx s + (if runAtStart s then 1 else 0)
-      /\ (forall id t, In (id, t) (pend s) -> lastidx s < (t - start s) / interval s)
-      /\ (forall l, realLast s = Some l -> start s <= l <= now s)).
-Definition CI (s : st) : Prop := wasreset s = false -> CIbody s.
+Definition quiet (e : ev) : bool := match e with ECount _ | EEpoch _ => false | _ => true end.
 
-Lemma csum_cons : forall e l, csum (e :: l) = fold_right Z.add 0 (count_of e) + csum l.
-Proof. intros. unfold csum. cbn [flat_map]. rewrite fold_right_app. induction (count_of e); cbn; lia. Qed.
+Lemma quiet_cons : forall e l, quiet e = true ->
+  esum (e :: l) = esum l /\ ebase (e :: l) = ebase l /\ csum (e :: l) = csum l.
+Proof. intros e l H. destruct e; try discriminate; repeat split. Qed.
+
+Lemma csum_count : forall n l, csum (ECount n :: l) = n + csum l.
+Proof. reflexivity. Qed.
+
+Record CI (s : st) : Prop := mkCI {
+  ci_last : forall l, realLast s = Some l -> l <= now s;
+  ci_start : started s = true -> start s <= now s;
+  ci_law : started s = true -> 0 < interval s ->
+           esum (log s) = lastidx s - ebase (log s)
+           /\ (forall id t, In (id, t) (pend s) -> lastidx s < (t - start s) / interval s);
+  ci_ok : (dgen s <= 1)%nat -> Forall count_ok (log s);
+  ci_first : wasreset s = false -> started s = true ->
+             ebase (log s) = (if runAtStart s then -1 else 0) /\ csum (log s) = esum (log s)
+             /\ (forall l, realLast s = Some l -> start s <= l);
+  ci_ns : started s = false -> realLast s = None /\ dgen s = 0%nat /\ csum (log s) = 0;
+  ci_gen : started s = true -> (1 <= dgen s)%nat
+}.
 
 Lemma CI_frame : forall s s',
   log s' = log s -> started s' = started s -> wasreset s' = wasreset s -> start s' = start s -> now s' = now s ->
-  interval s' = interval s -> runAtStart s' = runAtStart s -> realLast s' = realLast s ->
+  interval s' = interval s -> runAtStart s' = runAtStart s -> realLast s' = realLast s -> dgen s' = dgen s ->
   (forall x, In x (pend s') -> In x (pend s)) ->
   CI s -> CI s'.
 Proof.
-  intros s s' E1 E2 E3 E4 E5 E6 E7 E8 Hsub H Hw. rewrite E3 in Hw. destruct (H Hw) as [C1 [C2 C3]].
-  unfold CIbody, lastidx in *. rewrite E1, E2, E4, E5, E6, E7, E8. split; [exact C1|]. split; [exact C2|].
-  intros Hs. destruct (C3 Hs) as [A [B [C D]]]. split; [exact A|]. split; [exact B|]. split; [|exact D].
-  intros id t Hin. apply (C id t). apply Hsub. exact Hin.
+  intros s s' E1 E2 E3 E4 E5 E6 E7 E8 E9 Hsub [A B C D E F G].
+  split; unfold lastidx in *; rewrite ?E1, ?E2, ?E3, ?E4, ?E5, ?E6, ?E7, ?E8, ?E9; auto.
+  intros Hs Hi. destruct (C Hs Hi) as [C1 C2]. split; [exact C1|].
+  intros id t Hin. apply (C2 id t). apply Hsub. exact Hin.
 Qed.
 
-Lemma CI_emit : forall e s, count_of e = [] -> count_ok e -> CI s -> CI (emit e s).
+Lemma CI_emit : forall e s, quiet e = true -> count_ok e -> CI s -> CI (emit e s).
 Proof.
-  intros e s He Hok H Hw. cbn in Hw. destruct (H Hw) as [C1 [C2 C3]].
-  unfold CIbody, lastidx in *. sst. rewrite csum_cons, He. cbn [fold_right]. rewrite Z.add_0_l.
-  split; [constructor; assumption|]. split; [exact C2 | exact C3].
+  intros e s Hq Hok [A B C D E F G]. destruct (quiet_cons e (log s) Hq) as [Q1 [Q2 Q3]].
+  split; unfold lastidx in *; sst; rewrite ?Q1, ?Q2, ?Q3; auto.
 Qed.
 
 Lemma remove_call_sub : forall i l x, In x (remove_call i l) -> In x l.
@@ -417,61 +451,77 @@ Proof.
     + destruct H as [H|[H|H]]; auto.
 Qed.
 
-Lemma lastidx_le_now : forall s, 0 < interval s -> start s <= now s ->
-  (forall l, realLast s = Some l -> start s <= l <= now s) -> lastidx s <= (now s - start s) / interval s.
+Lemma quot_le_div : forall l st0 w i, 0 < i -> l <= w -> st0 <= w -> Z.quot (l - st0) i <= (w - st0) / i.
 Proof.
-  intros s Hi Hn Hl. unfold lastidx. destruct (realLast s) as [l|].
-  - specialize (Hl l eq_refl). apply Z.div_le_mono; lia.
+  intros l st0 w i Hi Hl Hs. destruct (Z_le_gt_dec st0 l) as [Hge|Hlt].
+  - rewrite Z.quot_div_nonneg by lia. apply Z.div_le_mono; lia.
+  - assert (H0 : 0 <= (w - st0) / i) by (apply Z.div_pos; lia).
+    replace (l - st0) with (- (st0 - l)) by lia. rewrite Z.quot_opp_l by lia.
+    assert (0 <= Z.quot (st0 - l) i) by (apply Z.quot_pos; lia). lia.
+Qed.
+
+Lemma lastidx_le_now : forall s, 0 < interval s -> start s <= now s ->
+  (forall l, realLast s = Some l -> l <= now s) -> lastidx s <= (now s - start s) / interval s.
+Proof.
+  intros s Hi Hn Hl. unfold lastidx, lastidx_at. destruct (realLast s) as [l|].
+  - apply quot_le_div; auto.
   - assert (0 <= (now s - start s) / interval s) by (apply Z.div_pos; lia). destruct (runAtStart s); lia.
 Qed.
 
 (** _scheduleFrom(now) on a started loop *)
-Lemma CI_schedule : forall s, 0 < interval s -> started s = true -> CI s -> CI (schedule (now s) s).
+Lemma CI_schedule : forall s, started s = true -> CI s -> CI (schedule (now s) s).
 Proof.
-  intros s Hi Hst H. unfold schedule. apply CI_emit; [reflexivity | exact I|].
-  intros Hw. cbn in Hw. destruct (H Hw) as [C1 [C2 C3]]. unfold CIbody, lastidx in *. cbn.
-  split; [exact C1|]. split; [exact C2|].
-  intros Hs. destruct (C3 Hs) as [A [B [C D]]]. split; [exact A|]. split; [exact B|]. split; [|exact D].
-  intros id t Hin. apply insert_call_in in Hin. destruct Hin as [Hin|Hin]; [|apply (C id t); exact Hin].
+  intros s Hst H. unfold schedule. apply CI_emit; [reflexivity | exact I|].
+  destruct H as [A B C D E F G]. split; unfold lastidx in *; sst; auto.
+  intros _ Hi. destruct (C Hst Hi) as [C1 C2]. split; [exact C1|].
+  intros id t Hin. apply insert_call_in in Hin. destruct Hin as [Hin|Hin]; [|apply (C2 id t); exact Hin].
   inversion Hin; subst.
-  destruct (next_time_spec (start s) (interval s) (now s) Hi) as [E _]. cbn in E. rewrite E.
+  destruct (next_time_spec (start s) (interval s) (now s) Hi) as [En _]. cbn in En. rewrite En.
   replace (start s + ((now s - start s) / interval s + 1) * interval s - start s)
     with (((now s - start s) / interval s + 1) * interval s) by lia.
   rewrite Z.div_mul by lia.
-  pose proof (lastidx_le_now s Hi A D) as Hle. unfold lastidx in Hle. lia.
+  pose proof (lastidx_le_now s Hi (B Hst) A) as Hle. unfold lastidx in Hle. lia.
 Qed.
 
 Lemma CI_fire : forall ok s, CI s -> CI (fire_deferred ok s).
 Proof.
   intros ok s H. unfold fire_deferred. destruct (dcur s) as [g|]; [|apply CI_emit; auto; exact I].
-  intros Hw. cbn in Hw. destruct (H Hw) as [C1 [C2 C3]]. unfold CIbody, lastidx in *. sst. rewrite csum_cons.
-  assert (E : count_of (if existsb (Nat.eqb g) (dfired s) then EDoubleFire else EDone g ok) = [])
-    by (destruct (existsb _ _); reflexivity).
-  rewrite E. cbn [fold_right]. rewrite Z.add_0_l. split; [constructor; [destruct (existsb _ _); exact I | exact C1]|]. split; [exact C2 | exact C3].
+  set (e := if existsb (Nat.eqb g) (dfired s) then EDoubleFire else EDone g ok).
+  assert (Hq : quiet e = true) by (unfold e; destruct (existsb _ _); reflexivity).
+  assert (Hok : count_ok e) by (unfold e; destruct (existsb _ _); exact I).
+  destruct (quiet_cons e (log s) Hq) as [Q1 [Q2 Q3]].
+  destruct H as [A B C D E F G]. split; unfold lastidx in *; sst; rewrite ?Q1, ?Q2, ?Q3; auto.
 Qed.
 
-Lemma CI_cb : forall s, 0 < interval s -> started s = true -> CI s -> CI (cb s).
-Proof. intros s Hi Hst H. unfold cb. destruct (running s); [apply CI_schedule | apply CI_fire]; assumption. Qed.
+Lemma CI_cb : forall s, started s = true -> CI s -> CI (cb s).
+Proof. intros s Hst H. unfold cb. destruct (running s); [apply CI_schedule | apply CI_fire]; assumption. Qed.
 
 Lemma CI_eb : forall s, CI s -> CI (eb s).
 Proof.
-  intros s H. unfold eb. apply CI_fire. eapply CI_frame; [| | | | | | | | |exact H]; try reflexivity. auto.
+  intros s H. unfold eb. apply CI_fire. eapply CI_frame; [| | | | | | | | | |exact H]; try reflexivity. auto.
 Qed.
 
 Lemma CI_do_stop : forall s, CI s -> CI (do_stop s).
 Proof.
   intros s H. unfold do_stop. destruct (running s); [|apply CI_emit; auto; exact I].
   destruct (call s).
-  - apply CI_fire. eapply CI_frame; [| | | | | | | | |exact H]; try reflexivity. cbn. apply remove_call_sub.
-  - eapply CI_frame; [| | | | | | | | |exact H]; try reflexivity. auto.
+  - apply CI_fire. eapply CI_frame; [| | | | | | | | | |exact H]; try reflexivity. cbn. apply remove_call_sub.
+  - eapply CI_frame; [| | | | | | | | | |exact H]; try reflexivity. auto.
 Qed.
 
-Lemma CI_do_reset : forall s, CI s -> CI (do_reset s).
+(** reset(): a new epoch begins; the counts start again from the base recorded in EEpoch *)
+Lemma CI_do_reset : forall s, started s = true ->
+  (forall i, call s = Some i -> remove_call i (pend s) = []) -> CI s -> CI (do_reset s).
 Proof.
-  intros s H. unfold do_reset. destruct (running s); [|apply CI_emit; auto; exact I].
-  destruct (call s); [|exact H].
-  (* a real reset: the epoch changes and the count law is no longer claimed *)
-  intros Hw. cbn in Hw. discriminate.
+  intros s Hst Hone H. unfold do_reset. destruct (running s); [|apply CI_emit; auto; exact I].
+  destruct (call s) as [i|] eqn:Ec; [|exact H].
+  apply (CI_schedule (set_epoch (now s) (set_clock (remove_call i (pend s)) (nextid s) None s))); [exact Hst|].
+  specialize (Hone i eq_refl).
+  destruct H as [A B C D E F G]. split; unfold lastidx in *; sst; auto.
+  - intros _. lia.
+  - intros _ Hi. cbn [esum ebase]. split; [lia|]. rewrite Hone. intros id t [].
+  - intros Hd. constructor; [exact I | auto].
+  - intros; discriminate.
 Qed.
 
 Lemma do_stop_frame : forall s, interval (do_stop s) = interval s /\ started (do_stop s) = started s.
@@ -480,85 +530,99 @@ Proof.
   unfold fire_deferred. destruct (dcur _); split; reflexivity.
 Qed.
 
-Lemma do_reset_frame : forall s, interval (do_reset s) = interval s /\ started (do_reset s) = started s.
-Proof.
-  intros s. unfold do_reset. destruct (running s); [destruct (call s)|]; split; reflexivity.
-Qed.
+Lemma do_reset_frame : forall s, started (do_reset s) = started s.
+Proof. intros s. unfold do_reset. destruct (running s); [destruct (call s)|]; reflexivity. Qed.
 
 Section Counts.
   Variable beh : nat -> fbeh.
 
-  Lemma CI_run_f : forall s, 0 < interval s -> started s = true -> CI s -> CI (run_f beh s).
+  (** f is called from inside __call__ (self.call is None there) *)
+  Lemma CI_run_f : forall s, started s = true -> call s = None -> CI s -> CI (run_f beh s).
   Proof.
-    intros s Hi Hst H. unfold run_f.
+    intros s Hst Hc H. unfold run_f.
     set (s1 := emit _ _).
     assert (H1 : CI s1).
     { unfold s1. apply CI_emit; [reflexivity | exact I|].
-      eapply CI_frame; [| | | | | | | | |exact H]; try reflexivity. auto. }
-    assert (Hi1 : 0 < interval s1) by exact Hi.
+      eapply CI_frame; [| | | | | | | | | |exact H]; try reflexivity. auto. }
     assert (Hst1 : started s1 = true) by exact Hst.
+    assert (Hc1 : call s1 = None) by exact Hc.
     destruct (beh (ncalls s)).
     - apply CI_cb; assumption.
     - apply CI_eb; assumption.
-    - eapply CI_frame; [| | | | | | | | |exact H1]; try reflexivity. auto.
-    - destruct (do_stop_frame s1) as [F1 F2].
-      apply CI_cb; [rewrite F1; exact Hi1 | rewrite F2; exact Hst1 | apply CI_do_stop; exact H1].
+    - eapply CI_frame; [| | | | | | | | | |exact H1]; try reflexivity. auto.
+    - apply CI_cb; [rewrite (proj2 (do_stop_frame s1)); exact Hst1 | apply CI_do_stop; exact H1].
     - pose proof (CI_do_stop s1 H1) as H2.
-      eapply CI_frame; [| | | | | | | | |exact H2]; try reflexivity. auto.
-    - destruct (do_reset_frame s1) as [F1 F2].
-      apply CI_cb; [rewrite F1; exact Hi1 | rewrite F2; exact Hst1 | apply CI_do_reset; exact H1].
+      eapply CI_frame; [| | | | | | | | | |exact H2]; try reflexivity. auto.
+    - apply CI_cb; [rewrite do_reset_frame; exact Hst1|].
+      apply CI_do_reset; [exact Hst1 | rewrite Hc1; intros i Hi; discriminate | exact H1].
   Qed.
 
-  (** __call__ with the counter, when nothing else is pending and a boundary has been passed since
-      the last counted call (or this is the immediate first call) *)
-  Lemma CI_invoke : forall wc s, 0 < interval s -> started s = true -> pend s = [] -> CI s ->
-    (wasreset s = false -> start s <= now s /\ lastidx s < (now s - start s) / interval s) ->
+  (** __call__, when nothing else is pending *)
+  Lemma CI_invoke : forall wc s, 0 <= interval s -> started s = true -> pend s = [] -> CI s ->
+    ((dgen s <= 1)%nat -> 0 < interval s -> lastidx s < (now s - start s) / interval s) ->
     CI (invoke beh wc s).
   Proof.
-    intros wc s Hi Hst Hp H Hdue. unfold invoke.
+    intros wc s Hi0 Hst Hp H Hdue. unfold invoke.
     set (s1 := set_clock (pend s) (nextid s) None s).
-    assert (H1 : CI s1) by (eapply CI_frame; [| | | | | | | | |exact H]; try reflexivity; auto).
-    destruct wc; [|apply CI_run_f; assumption].
-    match goal with |- context [if ?c then _ else _] => destruct c eqn:Ec end.
-    - apply CI_run_f; [exact Hi | exact Hst|].
-      intros Hw. cbn in Hw. destruct (H Hw) as [C1 [C2 C3]]. destruct (Hdue Hw) as [Hn Hlt].
-      destruct (C3 Hst) as [A [B [C D]]].
-      (* the count computed by the code is (now - start)/i - lastidx *)
-      assert (Ecount : interval_of s1 (now s1)
-                       - interval_of s1 (match realLast s1 with
-                                         | Some l => l
-                                         | None => if runAtStart s1 then start s1 - interval s1 else start s1
-                                         end)
-                       = (now s - start s) / interval s - lastidx s).
-      { unfold interval_of, lastidx. cbn.
+    assert (H1 : CI s1) by (eapply CI_frame; [| | | | | | | | | |exact H]; try reflexivity; auto).
+    destruct H as [A B C D E F G]. pose proof (B Hst) as Hn.
+    (* CI of the state in which the counter has just recorded a count n >= 1 at [now] *)
+    assert (Hcounted : forall n, 1 <= n ->
+              (0 < interval s -> n = (now s - start s) / interval s - lastidx s) ->
+              CI (emit (ECount n) (set_last (now s1) s1))).
+    { intros n Hn1 Hlaw. apply mkCI; unfold lastidx in *; subst s1; sst.
+      - intros l Hl. inversion Hl; subst. lia.
+      - exact B.
+      - intros _ Hi. cbn [esum ebase lastidx_at]. rewrite Hp. destruct (C Hst Hi) as [C1 _].
         rewrite (Z.quot_div_nonneg (now s - start s) (interval s)) by lia.
-        destruct (realLast s) as [l|] eqn:El.
-        - specialize (D l eq_refl). rewrite (Z.quot_div_nonneg (l - start s) (interval s)) by lia. reflexivity.
-        - destruct (runAtStart s).
-          + replace (start s - interval s - start s) with (- interval s) by lia.
-            rewrite Z.quot_opp_l by lia. rewrite Z.quot_same by lia. reflexivity.
-          + replace (start s - start s) with 0 by lia. rewrite Z.quot_0_l by lia. reflexivity. }
-      rewrite Ecount in *. subst s1. unfold CIbody, lastidx in *. sst. rewrite csum_cons. cbn [count_of fold_right].
-      split; [constructor; [cbn; lia | exact C1]|]. split; [intros Hs; congruence|].
-      intros _. split; [exact Hn|]. split; [rewrite B; lia|]. split.
-      + intros id t Hin. rewrite Hp in Hin. destruct Hin.
-      + intros l Hl. inversion Hl; subst. lia.
-    - (* count <= 0: impossible while the count law is claimed *)
-      apply CI_cb; [exact Hi | exact Hst|]. intros Hw. cbn in Hw. exfalso.
-      destruct (H Hw) as [C1 [C2 C3]]. destruct (Hdue Hw) as [Hn Hlt]. destruct (C3 Hst) as [A [B [C D]]].
-      apply Z.ltb_ge in Ec. unfold interval_of in Ec. cbn in Ec. unfold lastidx in Hlt.
-      rewrite (Z.quot_div_nonneg (now s - start s) (interval s)) in Ec by lia.
-      destruct (realLast s) as [l|] eqn:El.
-      + specialize (D l eq_refl). rewrite (Z.quot_div_nonneg (l - start s) (interval s)) in Ec by lia. lia.
-      + destruct (runAtStart s).
-        * replace (start s - interval s - start s) with (- interval s) in Ec by lia.
-          rewrite Z.quot_opp_l in Ec by lia. rewrite Z.quot_same in Ec by lia. lia.
-        * replace (start s - start s) with 0 in Ec by lia. rewrite Z.quot_0_l in Ec by lia. lia.
+        specialize (Hlaw Hi). split; [lia|]. intros id t [].
+      - intros Hd. constructor; [exact Hn1 | auto].
+      - intros Hw Hs. destruct (E Hw Hs) as [E1 [E2 E3]]. cbn [ebase]. rewrite csum_count. cbn [esum].
+        split; [exact E1|]. split; [lia|]. intros l Hl. inversion Hl; subst. exact Hn.
+      - intros Hs. congruence.
+      - exact G. }
+    destruct (wc && (interval s1 =? 0))%bool eqn:Ez.
+    { apply andb_true_iff in Ez. destruct Ez as [_ Ez]. apply Z.eqb_eq in Ez. cbn in Ez.
+      apply CI_run_f; [exact Hst | reflexivity|]. apply Hcounted; [lia | intros Hi; lia]. }
+    destruct wc; [|apply CI_run_f; [exact Hst | reflexivity | exact H1]].
+    cbn [andb] in Ez. apply Z.eqb_neq in Ez. cbn in Ez.
+    assert (Hi : 0 < interval s) by lia.
+    (* the count computed by the code is (now - start)/i - lastidx *)
+    assert (Ecount : interval_of s1 (now s1)
+                     - interval_of s1 (match realLast s1 with
+                                       | Some l => l
+                                       | None => if runAtStart s1 then start s1 - interval s1 else start s1
+                                       end)
+                     = (now s - start s) / interval s - lastidx s).
+    { unfold interval_of, lastidx, lastidx_at. cbn.
+      rewrite (Z.quot_div_nonneg (now s - start s) (interval s)) by lia.
+      destruct (realLast s) as [l|] eqn:El; [reflexivity|].
+      destruct (runAtStart s).
+      + replace (start s - interval s - start s) with (- interval s) by lia.
+        rewrite Z.quot_opp_l by lia. rewrite Z.quot_same by lia. reflexivity.
+      + replace (start s - start s) with 0 by lia. rewrite Z.quot_0_l by lia. reflexivity. }
+    rewrite Ecount.
+    destruct (0 <? (now s - start s) / interval s - lastidx s) eqn:Ec.
+    - apply Z.ltb_lt in Ec. apply CI_run_f; [exact Hst | reflexivity|]. apply Hcounted; [lia | auto].
+    - apply Z.ltb_ge in Ec. apply CI_cb; [exact Hst|].
+      destruct (quiet_cons ESkip (log s) eq_refl) as [Q1 [Q2 Q3]].
+      apply mkCI; unfold lastidx in *; subst s1; sst; rewrite ?Q1, ?Q2, ?Q3.
+      + exact A.
+      + exact B.
+      + intros Hs Hi'. rewrite Hp. destruct (C Hs Hi') as [C1 _]. split; [exact C1|]. intros id t [].
+      + intros Hd. exfalso. specialize (Hdue Hd Hi). lia.
+      + exact E.
+      + exact F.
+      + exact G.
   Qed.
+End Counts.
+
+Section Counts2.
+  Variable beh : nat -> fbeh.
 
   Definition nonneg_adv (o : op) : Prop := match o with Advance a => 0 <= a | _ => True end.
 
-  (** [started] is only ever changed by start() *)
+  (** [started] and [dgen] are only ever changed by start() *)
   Lemma started_fire : forall ok x, started (fire_deferred ok x) = started x.
   Proof. intros. unfold fire_deferred. destruct (dcur x); reflexivity. Qed.
   Lemma started_cb : forall x, started (cb x) = started x.
@@ -573,11 +637,12 @@ Section Counts.
     - reflexivity.
     - rewrite started_cb, (proj2 (do_stop_frame _)). reflexivity.
     - rewrite (proj2 (do_stop_frame _)). reflexivity.
-    - rewrite started_cb, (proj2 (do_reset_frame _)). reflexivity.
+    - rewrite started_cb, do_reset_frame. reflexivity.
   Qed.
   Lemma started_invoke : forall wc x, started (invoke beh wc x) = started x.
   Proof.
-    intros. unfold invoke. destruct wc; [|rewrite started_run_f; reflexivity].
+    intros. unfold invoke. destruct (wc && _)%bool; [rewrite started_run_f; reflexivity|].
+    destruct wc; [|rewrite started_run_f; reflexivity].
     match goal with |- context [if ?c then _ else _] => destruct c end;
       [rewrite started_run_f | rewrite started_cb]; reflexivity.
   Qed.
@@ -588,7 +653,7 @@ Section Counts.
   Lemma NS_step : forall wc s o, NS s -> NS (step beh wc s o).
   Proof.
     intros wc s o H. destruct o as [i b|a|ok| |]; cbn [step].
-    - destruct (running s || (i <=? 0)); [exact H|]. intros Hx. exfalso. revert Hx.
+    - destruct (running s || (i <? 0)); [exact H|]. intros Hx. exfalso. revert Hx.
       destruct b; [rewrite started_invoke | unfold schedule]; cbn; discriminate.
     - intros Hx. unfold fire_due in *. cbn [set_now now pend] in *.
       destruct (started s) eqn:Es.
@@ -608,56 +673,66 @@ Section Counts.
       + intros Hx. rewrite (proj2 (do_stop_frame s)) in Hx. congruence.
       + destruct (H Es) as [H1 [H2 H3]]. unfold do_stop. rewrite H1. cbn. intros _. auto.
     - destruct (started s) eqn:Es.
-      + intros Hx. rewrite (proj2 (do_reset_frame s)) in Hx. congruence.
+      + intros Hx. rewrite do_reset_frame in Hx. congruence.
       + destruct (H Es) as [H1 [H2 H3]]. unfold do_reset. rewrite H1. cbn. intros _. auto.
   Qed.
 
   Lemma CI_step : forall wc s o, Inv s -> NS s -> CI s -> restart_ok s o -> nonneg_adv o -> CI (step beh wc s o).
   Proof.
-    intros wc s o [HC Hp] Hns H Hok Hnn. pose proof (c_int _ HC) as Hi.
+    intros wc s o [HC Hp] Hns H Hok Hnn. pose proof (c_int _ HC) as Hi0.
+    assert (Hrs : running s = true -> started s = true).
+    { intros Hr. destruct (started s) eqn:Es; [reflexivity|]. destruct (Hns Es) as [Hr' _]. congruence. }
     destruct o as [i b|a|ok| |]; cbn [step].
     - (* start *)
-      destruct (running s || (i <=? 0)) eqn:E; [apply CI_emit; auto; exact I|].
-      apply orb_false_iff in E. destruct E as [Er Ei]. apply Z.leb_gt in Ei.
+      destruct (running s || (i <? 0)) eqn:E; [apply CI_emit; auto; exact I|].
+      apply orb_false_iff in E. destruct E as [Er Ei]. apply Z.ltb_ge in Ei.
       assert (Hidle : pend s = []).
       { destruct Hp as [Hp|[Hp|Hp]].
         - destruct Hp as [_ [P2 _]]. exact P2.
         - destruct Hp as [id [t [g [P1 _]]]]. congruence.
         - destruct Hp as [w [g [P2 _]]]. exact P2. }
       set (s1 := mkSt (now s) true (now s) i b true (pend s) (nextid s) (call s) (waiting s) (S (dgen s))
-                      (Some (dgen s)) (dfired s) (realLast s) (ncalls s) (wasreset s || started s) (log s)).
+                      (Some (dgen s)) (dfired s) (realLast s) (ncalls s) (wasreset s || started s)
+                      (EEpoch (lastidx_at (now s) i b (realLast s)) :: log s)).
+      destruct H as [A B C D E F G].
+      assert (Hfresh : (dgen s = 0)%nat -> started s = false).
+      { intros Hd. destruct (started s) eqn:Es; [|reflexivity]. specialize (G eq_refl). lia. }
       assert (H1 : CI s1).
-      { intros Hw. cbn in Hw. apply orb_false_iff in Hw. destruct Hw as [Hw Hs0].
-        destruct (H Hw) as [C1 [C2 C3]]. destruct (C2 Hs0) as [Cs Cl].
-        unfold CIbody, lastidx, s1. sst. rewrite Cl, Cs, Hidle.
-        split; [exact C1|]. split; [intros; discriminate|]. intros _.
-        split; [lia|]. split; [destruct b; reflexivity|]. split; [intros id t []|]. intros l Hl. discriminate. }
+      { apply mkCI; unfold lastidx, s1; sst.
+        - exact A.
+        - intros _. lia.
+        - intros _ Hi. cbn [esum ebase]. rewrite Hidle. split; [lia|]. intros id t [].
+        - intros Hd. constructor; [exact I|]. apply D. lia.
+        - intros Hw _. apply orb_false_iff in Hw. destruct Hw as [Hw Hs0].
+          destruct (F Hs0) as [F1 [F2 F3]]. rewrite F1. cbn [ebase esum lastidx_at].
+          split; [reflexivity|]. split; [exact F3|]. intros l Hl. discriminate.
+        - intros; discriminate.
+        - intros _. lia. }
       destruct b.
-      + apply CI_invoke; cbn; auto. intros Hw. apply orb_false_iff in Hw. destruct Hw as [Hw Hs0].
-        destruct (H Hw) as [_ [C2 _]]. destruct (C2 Hs0) as [_ Cl].
-        unfold lastidx. cbn. rewrite Cl. split; [lia|].
+      + apply CI_invoke; auto.
+        intros Hd Hi. unfold s1 in Hd, Hi. cbn in Hd, Hi. assert (Hs0 : started s = false) by (apply Hfresh; lia).
+        destruct (F Hs0) as [F1 _]. unfold lastidx, lastidx_at. cbn. rewrite F1.
         replace (now s - now s) with 0 by lia. rewrite Z.div_0_l by lia. lia.
-      + apply (CI_schedule s1); [exact Ei | reflexivity | exact H1].
+      + apply (CI_schedule s1); [reflexivity | exact H1].
     - (* advance *)
       unfold fire_due. cbn [set_now now pend]. cbn in Hnn.
       assert (H1 : CI (set_now (now s + a) s)).
-      { intros Hw. cbn in Hw. destruct (H Hw) as [C1 [C2 C3]]. unfold CIbody, lastidx in *. sst.
-        split; [exact C1|]. split; [exact C2|]. intros Hs. destruct (C3 Hs) as [A [B [C D]]].
-        split; [lia|]. split; [exact B|]. split; [exact C|]. intros l Hl. specialize (D l Hl). lia. }
+      { destruct H as [A B C D E F G]. apply mkCI; unfold lastidx in *; sst; auto.
+        - intros l Hl. specialize (A l Hl). lia.
+        - intros Hs. specialize (B Hs). lia. }
       destruct Hp as [Hp|[Hp|Hp]].
       + destruct Hp as [P1 [P2 _]]. rewrite P2. cbn. exact H1.
       + destruct Hp as [id [t [g [P1 [P2 [P3 [P4 P5]]]]]]]. rewrite P2. cbn [due_prefix snd].
-        assert (Hst : started s = true).
-        { destruct (started s) eqn:Es; [reflexivity|]. destruct (Hns Es) as [Hr _]. congruence. }
+        pose proof (Hrs P1) as Hst.
         destruct (t <=? now s + a) eqn:Edue; [|cbn; exact H1].
         apply Z.leb_le in Edue. cbn [fold_left fst].
         apply CI_invoke; cbn; auto.
         * rewrite P2. cbn. rewrite Nat.eqb_refl. reflexivity.
-        * eapply CI_frame; [| | | | | | | | |exact H1]; try reflexivity. cbn. intros x Hx. eapply remove_call_sub. exact Hx.
-        * intros Hw. destruct (H Hw) as [_ [_ C3]]. destruct (C3 Hst) as [A [B [C D]]].
-          split; [lia|]. unfold lastidx in *. cbn.
-          assert (Hc : match realLast s with Some l => (l - start s) / interval s | None => if runAtStart s then -1 else 0 end
-                       < (t - start s) / interval s) by (apply (C id t); rewrite P2; left; reflexivity).
+        * eapply CI_frame; [| | | | | | | | | |exact H1]; try reflexivity. cbn. intros x Hx. eapply remove_call_sub. exact Hx.
+        * intros _ Hi. destruct H as [A B C D E F G]. destruct (C Hst Hi) as [_ C2]. specialize (B Hst).
+          unfold lastidx in *. cbn.
+          assert (Hc : lastidx_at (start s) (interval s) (runAtStart s) (realLast s) < (t - start s) / interval s)
+            by (apply (C2 id t); rewrite P2; left; reflexivity).
           assert (Hm : (t - start s) / interval s <= (now s + a - start s) / interval s) by (apply Z.div_le_mono; lia).
           lia.
       + destruct Hp as [w [g [P2 _]]]. rewrite P2. cbn. exact H1.
@@ -665,17 +740,24 @@ Section Counts.
       destruct (waiting s) as [|w0 w] eqn:Ew; [apply CI_emit; auto; exact I|].
       assert (Hst : started s = true).
       { destruct (started s) eqn:Es; [reflexivity|]. destruct (Hns Es) as [_ [Hw0 _]]. congruence. }
-      assert (H1 : CI (set_waiting w s)) by (eapply CI_frame; [| | | | | | | | |exact H]; try reflexivity; auto).
+      assert (H1 : CI (set_waiting w s)) by (eapply CI_frame; [| | | | | | | | | |exact H]; try reflexivity; auto).
       destruct ok; [apply CI_cb; assumption | apply CI_eb; exact H1].
     - apply CI_do_stop; exact H.
-    - apply CI_do_reset; exact H.
+    - (* reset *)
+      destruct (running s) eqn:Er; [|unfold do_reset; rewrite Er; apply CI_emit; auto; exact I].
+      apply CI_do_reset; [apply Hrs; reflexivity | | exact H].
+      intros i Hc. destruct Hp as [Hp|[Hp|Hp]].
+      + destruct Hp as [_ [P2 _]]. rewrite P2. reflexivity.
+      + destruct Hp as [id [t [g [P1 [P2 [P3 _]]]]]]. rewrite P2. rewrite P3 in Hc. inversion Hc; subst.
+        cbn. rewrite Nat.eqb_refl. reflexivity.
+      + destruct Hp as [w [g [P2 _]]]. rewrite P2. reflexivity.
   Qed.
 
   Lemma CI_snap : forall s, CI s -> CI (snap s).
   Proof. intros s H. unfold snap. apply CI_emit; [reflexivity | exact I | exact H]. Qed.
 
-  Lemma NS_snap : forall s, NS s -> NS (snap s).
-  Proof. intros s H. exact H. Qed.
+  Lemma CI_init : CI init.
+  Proof. apply mkCI; cbn; intros; try discriminate; try lia; auto. Qed.
 
   Lemma counts_run : forall wc ops s, Inv s -> NS s -> CI s -> run_ok beh wc s ops -> Forall nonneg_adv ops ->
     CI (run beh wc s ops).
@@ -684,35 +766,124 @@ Section Counts.
     destruct Hok as [Hok1 Hok2]. inversion Hnn; subst.
     apply IH; auto.
     - apply Inv_snap. apply Inv_step; assumption.
-    - apply NS_snap. apply NS_step. exact Hns.
+    - apply (NS_step wc s o Hns).
     - apply CI_snap. apply CI_step; assumption.
   Qed.
 
-  (** the exported statement: as long as the epoch was not changed by reset() or a second start(),
-      countCallable was never skipped, every count is >= 1, and the counts sum to the number of
-      boundaries start + j*interval (j >= 0 if started with now=True, else j >= 1) up to the last call *)
+  Lemma reach_CI : forall wc ops, run_ok beh wc init ops -> Forall nonneg_adv ops -> CI (run beh wc init ops).
+  Proof.
+    intros wc ops Hok Hnn. apply counts_run; auto.
+    - apply Inv_init.
+    - intros _. cbn. auto.
+    - apply CI_init.
+  Qed.
+
+  (** per epoch (since the last start()/reset()): the counts passed sum to the interval index of the last
+      counted call minus the base recorded when the epoch began *)
+  Lemma reach_counts_epoch : forall wc ops, run_ok beh wc init ops -> Forall nonneg_adv ops ->
+    let s := run beh wc init ops in
+    started s = true -> 0 < interval s -> esum (log s) = lastidx s - ebase (log s).
+  Proof. intros wc ops Hok Hnn s Hs Hi. apply (ci_law _ (reach_CI wc ops Hok Hnn) Hs Hi). Qed.
+
+  (** as long as start() was called at most once, countCallable is never skipped and every count is >= 1
+      (reset() included) *)
+  Lemma reach_counts_ok : forall wc ops, run_ok beh wc init ops -> Forall nonneg_adv ops ->
+    let s := run beh wc init ops in (dgen s <= 1)%nat -> Forall count_ok (log s).
+  Proof. intros wc ops Hok Hnn s Hd. apply (ci_ok _ (reach_CI wc ops Hok Hnn) Hd). Qed.
+
+  (** the simple form: no reset(), one start() *)
   Lemma reach_counts : forall wc ops, run_ok beh wc init ops -> Forall nonneg_adv ops ->
     let s := run beh wc init ops in
-    wasreset s = false ->
-    Forall count_ok (log s)
-    /\ csum (log s) = match realLast s with
-                      | Some l => (l - start s) / interval s + (if runAtStart s then 1 else 0)
-                      | None => 0
-                      end.
+    wasreset s = false -> 0 < interval s ->
+    csum (log s) = match realLast s with
+                   | Some l => (l - start s) / interval s + (if runAtStart s then 1 else 0)
+                   | None => 0
+                   end.
   Proof.
-    intros wc ops Hok Hnn s Hw.
-    assert (H : CI s).
-    { apply counts_run; auto.
-      - apply Inv_init.
-      - intros _. cbn. auto.
-      - intros _. unfold CIbody. cbn. split; [constructor|]. split; [auto|]. intros; discriminate. }
-    destruct (H Hw) as [C1 [C2 C3]]. split; [exact C1|].
+    intros wc ops Hok Hnn s Hw Hi. pose proof (reach_CI wc ops Hok Hnn) as H. fold s in H.
     destruct (started s) eqn:Es.
-    - destruct (C3 eq_refl) as [_ [B _]]. rewrite B. unfold lastidx. destruct (realLast s); [reflexivity|].
-      destruct (runAtStart s); reflexivity.
-    - destruct (C2 eq_refl) as [B1 B2]. rewrite B1, B2. reflexivity.
+    - destruct (ci_first _ H Hw Es) as [E1 [E2 E3]]. destruct (ci_law _ H Es Hi) as [L _].
+      rewrite E2, L, E1. unfold lastidx, lastidx_at. destruct (realLast s) as [l|] eqn:El.
+      + specialize (E3 l eq_refl). rewrite Z.quot_div_nonneg by lia. destruct (runAtStart s); lia.
+      + destruct (runAtStart s); lia.
+    - destruct (ci_ns _ H Es) as [N1 [_ N3]]. rewrite N1, N3. reflexivity.
   Qed.
-End Counts.
+
+  (** ---- the first tick of a now=False loop, and "one call per advance" ---- *)
+  (** start(interval, now=False) on an idle loop schedules exactly one call, for now + interval *)
+  Lemma first_tick_scheduled : forall wc s i, idle s -> 0 < i ->
+    pend (step beh wc s (Start i false)) = [(nextid s, now s + i)]
+    /\ ncalls (step beh wc s (Start i false)) = ncalls s.
+  Proof.
+    intros wc s i [P1 [P2 _]] Hi. cbn [step]. rewrite P1. cbn [orb].
+    replace (i <? 0) with false by (symmetry; apply Z.ltb_ge; lia).
+    unfold schedule. cbn. rewrite P2. cbn.
+    destruct (next_time_spec (now s) i (now s) Hi) as [E _]. cbn in E. rewrite E.
+    replace (now s - now s) with 0 by lia. rewrite Z.div_0_l by lia. split; [f_equal; f_equal; lia | reflexivity].
+  Qed.
+
+  (** with one call scheduled for t: an advance that does not reach t does nothing but move the clock; an
+      advance that reaches t enters __call__ exactly once, at the new clock value *)
+  Lemma advance_before_due : forall wc s id t a, pend s = [(id, t)] -> now s + a < t ->
+    step beh wc s (Advance a) = set_now (now s + a) s.
+  Proof.
+    intros wc s id t a P2 Hlt. cbn [step]. unfold fire_due. cbn [set_now now pend]. rewrite P2. cbn [due_prefix snd].
+    replace (t <=? now s + a) with false by (symmetry; apply Z.leb_gt; lia). reflexivity.
+  Qed.
+
+  Lemma advance_when_due : forall wc s id t a, pend s = [(id, t)] -> t <= now s + a ->
+    step beh wc s (Advance a) = invoke beh wc (set_clock [] (nextid s) (call s) (set_now (now s + a) s)).
+  Proof.
+    intros wc s id t a P2 Hle. cbn [step]. unfold fire_due. cbn [set_now now pend]. rewrite P2. cbn [due_prefix snd].
+    replace (t <=? now s + a) with true by (symmetry; apply Z.leb_le; lia).
+    cbn [fold_left fst pend nextid call set_now]. rewrite P2. cbn. rewrite Nat.eqb_refl. reflexivity.
+  Qed.
+
+  (** f is called at most once per advance (also with interval 0: the call scheduled by cb waits for the
+      next advance) *)
+  Lemma ncalls_cb : forall x, ncalls (cb x) = ncalls x.
+  Proof. intros. unfold cb, schedule, fire_deferred. destruct (running x); [reflexivity|]. destruct (dcur x); reflexivity. Qed.
+  Lemma ncalls_eb : forall x, ncalls (eb x) = ncalls x.
+  Proof. intros. unfold eb, fire_deferred. cbn. destruct (dcur x); reflexivity. Qed.
+  Lemma ncalls_stop : forall x, ncalls (do_stop x) = ncalls x.
+  Proof.
+    intros. unfold do_stop. destruct (running x); [destruct (call x)|]; try reflexivity.
+    unfold fire_deferred. cbn. destruct (dcur x); reflexivity.
+  Qed.
+  Lemma ncalls_reset : forall x, ncalls (do_reset x) = ncalls x.
+  Proof. intros. unfold do_reset. destruct (running x); [destruct (call x)|]; reflexivity. Qed.
+  Lemma ncalls_run_f : forall x, ncalls (run_f beh x) = S (ncalls x).
+  Proof.
+    intros. unfold run_f. destruct (beh (ncalls x)); cbn.
+    - rewrite ncalls_cb. reflexivity.
+    - rewrite ncalls_eb. reflexivity.
+    - reflexivity.
+    - rewrite ncalls_cb, ncalls_stop. reflexivity.
+    - rewrite ncalls_stop. reflexivity.
+    - rewrite ncalls_cb, ncalls_reset. reflexivity.
+  Qed.
+  Lemma ncalls_invoke : forall wc x, (ncalls (invoke beh wc x) <= S (ncalls x))%nat.
+  Proof.
+    intros. unfold invoke. destruct (wc && _)%bool; [rewrite ncalls_run_f; cbn; lia|].
+    destruct wc; [|rewrite ncalls_run_f; cbn; lia].
+    match goal with |- context [if ?c then _ else _] => destruct c end;
+      [rewrite ncalls_run_f | rewrite ncalls_cb]; cbn; lia.
+  Qed.
+
+  Lemma one_call_per_advance : forall wc ops a, run_ok beh wc init ops ->
+    let s := run beh wc init ops in
+    (ncalls (step beh wc s (Advance a)) <= S (ncalls s))%nat.
+  Proof.
+    intros wc ops a Hok s. destruct (reach_Inv beh wc ops Hok) as [_ Hp]. fold s in Hp.
+    cbn [step]. unfold fire_due. cbn [set_now now pend].
+    destruct Hp as [Hp|[Hp|Hp]].
+    - destruct Hp as [_ [P2 _]]. rewrite P2. cbn. lia.
+    - destruct Hp as [id [t [g [_ [P2 _]]]]]. rewrite P2. cbn [due_prefix snd].
+      destruct (t <=? now s + a); cbn [fold_left]; [|cbn; lia].
+      eapply Nat.le_trans; [apply ncalls_invoke|]. cbn. lia.
+    - destruct Hp as [w [g [P2 _]]]. rewrite P2. cbn. lia.
+  Qed.
+End Counts2.
 
 (** the unguarded statements are false of the current code *)
 Lemma overlap_refuted : exists beh wc ops k n, In (ECall k n true) (log (run beh wc init ops)).
@@ -739,4 +910,22 @@ Example ex_counts :
   let s := run ex_beh true init ex_ops in
   flat_map count_of (rev (log s)) = [1; 1; 5] /\ realLast s = Some 24 /\ wasreset s = false
   /\ done_gens (log s) = [0%nat] /\ pend s = [] /\ running s = false.
+Proof. vm_compute. repeat split. Qed.
+
+(** reset() with withCount: the last counted call was at 4 (its Deferred fired at 21), reset() at 22 starts a
+    new epoch whose base is -4 (four whole intervals between 4 and 22 carry over): the counts 5, 1 of the new
+    epoch sum to 6 = index 2 of the last call (31 = 22 + 2*4 + 1) minus the base *)
+Definition ex_beh2 (k : nat) : fbeh := match k with 1%nat => FDefer | _ => FRet end.
+Definition ex_ops2 : list op := [Start 4 true; Advance 4; Advance 17; Fire true; Advance 1; Reset; Advance 4; Advance 5].
+Example ex_epoch :
+  let s := run ex_beh2 true init ex_ops2 in
+  run_ok ex_beh2 true init ex_ops2 /\ flat_map count_of (rev (log s)) = [1; 1; 5; 1]
+  /\ esum (log s) = 6 /\ ebase (log s) = -4 /\ lastidx s = 2 /\ start s = 22 /\ realLast s = Some 31
+  /\ map snd (pend s) = [34].
+Proof. split; [cbn; tauto|]. vm_compute. repeat split. Qed.
+
+(** interval 0 on a reactor-like clock: one call per advance, count always 1 *)
+Example ex_interval0 :
+  let s := run (fun _ => FRet) true init [Start 0 true; Advance 0; Advance 5; Advance 0; Stop] in
+  flat_map count_of (rev (log s)) = [1; 1; 1; 1] /\ ncalls s = 4%nat /\ pend s = [] /\ done_gens (log s) = [0%nat].
 Proof. vm_compute. repeat split. Qed.
